@@ -1,5 +1,20 @@
 (* C06 model driver: same line protocol as harness/C06_sessions.cpp (see the grammar there) *)
 let hexs (l : n list) = hex_of_bytes l
+(* long byte strings (values / blobs at the codec bounds) are rendered as ~<length>~<crc32>, as the harness does *)
+let crc_tab = Array.init 256 (fun i -> let c = ref i in for _ = 0 to 7 do c := if !c land 1 = 1 then 0xEDB88320 lxor (!c lsr 1) else !c lsr 1 done; !c)
+let hexd (l : n list) =
+  if List.compare_length_with l 4096 <= 0 then hexs l
+  else begin
+    let c = ref 0xFFFFFFFF and len = ref 0 in
+    List.iter (fun x -> incr len; c := crc_tab.((!c lxor (int_of_n x)) land 0xFF) lxor (!c lsr 8)) l;
+    Printf.sprintf "~%d~%d" !len (!c lxor 0xFFFFFFFF) end
+(* pattern content: the first n bytes of a 64-byte unit repeated (see harness/C06_common.h:pattern) *)
+let pattern_unit : int array =
+  Array.of_list ([4;40;0;0] @ List.map Char.code ['r';'o';'l';'e';'a';'d';'m';'i';'n'] @ [3;12;0;0] @ List.map Char.code ['u';'i';'d';'0']
+                 @ [1;48;1;0] @ [Char.code 'p'] @ List.init 38 (fun _ -> Char.code '.'))
+let pattern (n : int) : n list =
+  assert (Array.length pattern_unit = 64);
+  let rec go i acc = if i < 0 then acc else go (i-1) (byte_tab.(pattern_unit.(i mod 64)) :: acc) in go (n-1) []
 let zs z = string_of_int (int_of_z z)
 
 let split_on_bar (toks : string list) : string list list =
@@ -31,7 +46,7 @@ let render_jar next (j : jar) =
    | None -> ()
    | Some (c, e) ->
        let v = match c with
-         | CEnc (dl, d) -> "C:" ^ zs dl ^ ":" ^ hexs d
+         | CEnc (dl, d) -> "C:" ^ zs dl ^ ":" ^ hexd d
          | CRaw s ->
              (match s with
               | x :: id when int_of_n x = 73 && (match is_issued next id with Some _ -> true | None -> false) -> "I" ^ render_id next id
@@ -41,13 +56,13 @@ let render_jar next (j : jar) =
   String.concat "," (List.rev !items)
 
 let render_op next = function
-  | OpS (id, dl, d) -> "S:" ^ render_id next id ^ ":" ^ zs dl ^ ":" ^ hexs d
+  | OpS (id, dl, d) -> "S:" ^ render_id next id ^ ":" ^ zs dl ^ ":" ^ hexd d
   | OpL (id, f) -> "L:" ^ render_id next id ^ ":" ^ (if f then "1" else "0")
   | OpD id -> "D:" ^ render_id next id
 
 let is_special k = List.mem (List.map int_of_n k) [[95;99;115;114;102]; [95;104]; [95;115]; [95;116]]
 let render_data (m : dmap) =
-  let ent (k, (v, e)) = hexs k ^ ":" ^ (if e then "1" else "0") ^ ":" ^ hexs v in
+  let ent (k, (v, e)) = hexs k ^ ":" ^ (if e then "1" else "0") ^ ":" ^ hexd v in
   let normal = List.filter (fun (k, _) -> match k with x :: _ when int_of_n x = 95 -> false | _ -> true) m in
   let spec = List.filter (fun (k, _) -> is_special k) m in
   String.concat "," (List.map ent (normal @ spec))
@@ -55,6 +70,9 @@ let render_data (m : dmap) =
 let parse_op (s : string) : scr =
   match String.split_on_char ':' s with
   | ["s"; k; v] -> Oset (bytes_of_hex k, bytes_of_hex v)
+  | ["g"; k; n] -> Oset (bytes_of_hex k, pattern (int_of_string n))
+  | ["gk"; n; v] -> Oset (pattern (int_of_string n), bytes_of_hex v)
+  | ["gg"; n; m] -> Oset (pattern (int_of_string n), pattern (int_of_string m))
   | ["e"; k] -> Oerase (bytes_of_hex k)
   | ["c"] -> Oclear
   | ["x"; k] -> Oexpose (bytes_of_hex k)
